@@ -355,7 +355,7 @@ impl Engine {
             best_mv = best_mv_at;
             best_score = score;
             self.max_depth = depth;
-            depth += 1;
+            depth = depth.saturating_add(1);
 
             match score {
                 Score::BlackMateIn(_) | Score::WhiteMateIn(_) => break,
